@@ -11,8 +11,8 @@
         → update_attributions(previous_content, content, .., author, ts)      `update`
         → attributions_to_line_attributions(.., content)                      `toLineAttrs`
 
-  The texts are lists of lines, every line terminated by `\n` (a text whose last line has no
-  final newline is outside this model — see Props/Bridge.lean for what happens there).  The diff
+  The texts of `lineStep` are lists of lines, every line terminated by `\n`; texts whose last line
+  has no final newline are `lineStepE` at the end of this file (Props/Bridge.lean §3).  The diff
   is a LINE ALIGNMENT: `keep | delete | insert` per line — the shape of imara's line diff before
   the token refinement of changed hunks — turned into one `Seg` per line.  There are no move
   mappings.  The substantive ranges are a parameter: every inserted segment contains a newline, so
